@@ -7,6 +7,7 @@ table="\n".join(f"| {m['id']} | {esc(m['change'])} | {esc(m['needs_to_manifest']
 caught=sum(1 for m in rows if all(v=='caught' for v in m['verdicts'].values()))
 mtc=[m for m in rows if any(v=='missed-then-caught' for v in m['verdicts'].values())]
 nj=[m for m in rows if any(v=='not-judged' for v in m['verdicts'].values())]
+other=[m for m in rows if 'missed' in m['verdicts'].values() and m not in mtc]
 stren="\n".join(f"* **{m['id']}** ({m['property']}) - {m['strengthening']}" for m in rows if m.get('strengthening'))
 p='/verif/DESIGN.md'
 s=open(p).read()
@@ -27,7 +28,12 @@ passes without it) and then run against the checks with
 Outcome: {caught} caught by the quick tier of every check they were run against; {len(mtc)}
 missed at first by the check of their own property and caught after the strengthening listed
 below (no check was weakened, workloads and oracles were widened); {len(nj)} not judged by design
-({', '.join(m['id'] for m in nj)}: inside a documented gray zone). Where an agent's final summary
+({', '.join(m['id'] for m in nj)}: inside a documented gray zone); {len(other)} outside the statement
+of the property its author was given and caught by the check of the property that owns the behaviour
+({', '.join(m['id'] for m in other)}, see its note). For round 3 the `missed-then-caught` verdicts were
+established by running the checks as they stood before the round (commit 1635b1a, built in a scratch
+worktree) and the current checks against the same patch: 12 of the 24 round-3 changes were missed by the
+earlier checks and all are caught now. Where an agent's final summary
 gave me the idea before I ran its patch, and I widened the workload first, the `strengthening`
 note of that row says so. One further delivered change (TextReader staging buffer re-served after
 a failed refill) was made moot by `fix:` #14 of section 5, which it led to, and is not kept.
